@@ -99,7 +99,7 @@ structure InvE (en : List ((Name × Name) × EnvEntry)) (D : List Decl) : Prop w
   e2 : ∀ p vs, en.lookup p = some (.routes vs) →
     (∀ b ∈ D, exactOf b = p → b.item.kind.isRoute = true) ∧
     (∀ v, v ∈ vs ↔ ∃ b ∈ D, exactOf b = p ∧ b.item.kind = .route v)
-  e3 : ∀ p h, en.lookup p = some (.user h) → ∃ b ∈ D, exactOf b = p ∧ b.item.kind.isRoute = false
+  e3 : ∀ p, en.lookup p = some .user → ∃ b ∈ D, exactOf b = p ∧ b.item.kind.isRoute = false
 
 def Inv (st : State) (D : List Decl) (N : List Name) : Prop := InvC st.canon D N ∧ InvE st.env D
 
@@ -174,7 +174,7 @@ theorem InvC.keep {cn D N} (h : InvC cn D N) (a : Decl) (ha : a.ns ∈ N) {c} (h
   · simp only [List.mem_append, List.mem_singleton]; grind
 
 theorem InvE.user {en D} (h : InvE en D) (a : Decl) (hl : en.lookup (exactOf a) = none)
-    (hr : a.item.kind.isRoute = false) (f : Bool) : InvE ((exactOf a, .user f) :: en) (D ++ [a]) := by
+    (hr : a.item.kind.isRoute = false) : InvE ((exactOf a, .user) :: en) (D ++ [a]) := by
   have h1 := h.e1; have h2 := h.e2; have h3 := h.e3
   constructor
   · simp only [lookup_cons_eq, List.mem_append, List.mem_singleton]; grind
@@ -207,15 +207,13 @@ def envCheck (k : ItemKind) (old : Option EnvEntry) (name : Name) : Except Err E
   | .route v, some (.routes vs) =>
     if vs.contains v then .error (.specerr .routeVersionDefined) else .ok (.routes (v :: vs))
   | .route v, none => .ok (.routes [v])
-  | _, some (.user true) => .error (.specerr .symbolDefined)
-  | _, some (.user false) => .error (.crash .attributeError)
-  | _, some (.routes _) => .error (.crash .attributeError)
+  | _, some e => .error (symbolAlreadyDefined (some e))
   | k, none =>
     if k == .annotationType && builtinAnnotations.contains name then .error (.specerr .builtinAnnotation)
-    else .ok (.user (k != .annotationType))
+    else .ok .user
 
 theorem addItem_eq (st : State) (ns : Name) (x : Item) : addItem st ns x =
-    if builtinTypes.contains x.name then .error (.crash .attributeError) else
+    if builtinTypes.contains x.name then .error (.specerr .symbolDefined) else
     match envCheck x.kind (st.env.lookup (ns, x.name)) x.name with
     | .error e => .error e
     | .ok ent => checkCanon { st with env := ((ns, x.name), ent) :: st.env } x.kind.cls x.name ns x.kind.isRoute := by
@@ -224,22 +222,20 @@ theorem addItem_eq (st : State) (ns : Name) (x : Item) : addItem st ns x =
   · rfl
   · generalize st.env.lookup (ns, x.name) = o
     rcases x with ⟨k, name⟩
-    cases k <;> rcases o with _ | (⟨_ | _⟩ | vs) <;> simp only [ItemKind.cls, ItemKind.isRoute] <;>
+    cases k <;> rcases o with _ | (_ | vs) <;> simp only [ItemKind.cls, ItemKind.isRoute] <;>
       first | rfl | (split <;> rfl)
 
 theorem envCheck_ok {k old name ent} (h : envCheck k old name = .ok ent) :
     (∃ v, k = .route v ∧ old = none ∧ ent = .routes [v]) ∨
     (∃ v vs, k = .route v ∧ old = some (.routes vs) ∧ v ∉ vs ∧ ent = .routes (v :: vs)) ∨
     (k.isRoute = false ∧ old = none ∧ ¬ (k = .annotationType ∧ builtinAnnotations.contains name = true) ∧
-      ∃ f, ent = .user f) := by
+      ent = .user) := by
   unfold envCheck at h
   split at h
   · split at h
     · cases h
     · rename_i hv; cases h; simp at hv; simp [hv]
   · cases h; simp
-  · cases h
-  · cases h
   · cases h
   · rename_i hk
     split at h
@@ -253,7 +249,7 @@ theorem envCheck_ok {k old name ent} (h : envCheck k old name = .ok ent) :
 
 theorem envCheck_error {k old name e} (h : envCheck k old name = .error e) :
     (∃ v vs, k = .route v ∧ old = some (.routes vs) ∧ v ∈ vs) ∨
-    (∃ f, old = some (.user f)) ∨
+    (old = some .user) ∨
     (k.isRoute = false ∧ ∃ vs, old = some (.routes vs)) ∨
     (k = .annotationType ∧ builtinAnnotations.contains name = true ∧ old = none ∧
       e = .specerr .builtinAnnotation) := by
@@ -263,13 +259,13 @@ theorem envCheck_error {k old name e} (h : envCheck k old name = .error e) :
     · rename_i hv; simp at hv; simp [hv]
     · cases h
   · cases h
-  · simp
-  · simp
-  · rename_i hk
-    have : k.isRoute = false := by
-      cases k <;> simp [ItemKind.isRoute]
-      exact hk _ rfl
-    simp [this]
+  · rename_i _ ent hk
+    rcases ent with _ | vs
+    · simp
+    · have : k.isRoute = false := by
+        cases k <;> simp [ItemKind.isRoute]
+        exact hk _ _ rfl rfl
+      simp [this]
   · split at h
     · rename_i hb; simp at hb; cases h; simp [hb]
     · cases h
@@ -285,25 +281,22 @@ theorem checkCanon_ok {st c name ns dup st'} (h : checkCanon st c name ns dup = 
   · rename_i s hl
     split at h
     · rename_i hc; cases h; simp at hc; simp [hl, hc]
-    · split at h <;> cases h
+    · cases h
 
 theorem checkCanon_error {st c name ns dup e} (h : checkCanon st c name ns dup = .error e) :
-    ∃ s, st.canon.lookup (key name ns) = some s ∧ ¬ (c = s ∧ dup = true) ∧
-      (∀ x, e = .crash x → c = .annotation ∨ s = .annotation) := by
+    e = .specerr .nameConflict ∧
+    ∃ s, st.canon.lookup (key name ns) = some s ∧ ¬ (c = s ∧ dup = true) := by
   unfold checkCanon at h
   simp only at h
   split at h
   · cases h
   · rename_i s hl
-    refine ⟨s, hl, ?_⟩
     split at h
     · cases h
     · rename_i hc
       simp at hc
-      refine ⟨fun ⟨h1, h2⟩ => absurd h2 (by simpa using hc h1), ?_⟩
-      split at h
-      · rename_i ha; simp at ha; intro _ _; exact ha
-      · cases h; intro x hx; cases hx
+      cases h
+      exact ⟨rfl, s, hl, fun ⟨h1, h2⟩ => absurd h2 (by simpa using hc h1)⟩
 
 /-! ## One declaration: invariant, acceptance, crash -/
 
@@ -319,10 +312,10 @@ theorem addItem_inv {st D N ns x st'} (hI : Inv st D N) (hns : ns ∈ N) (h : ad
       simp only at henv hcan
       have hE' : InvE st'.env (D ++ [⟨ns, x⟩]) := by
         rw [henv]
-        rcases envCheck_ok hE with ⟨v, hk, ho, rfl⟩ | ⟨v, vs, hk, ho, _, rfl⟩ | ⟨hr, ho, _, f, rfl⟩
+        rcases envCheck_ok hE with ⟨v, hk, ho, rfl⟩ | ⟨v, vs, hk, ho, _, rfl⟩ | ⟨hr, ho, _, rfl⟩
         · exact hI.2.routeNew ⟨ns, x⟩ ho hk
         · exact hI.2.routeMore ⟨ns, x⟩ ho hk
-        · exact hI.2.user ⟨ns, x⟩ ho hr f
+        · exact hI.2.user ⟨ns, x⟩ ho hr
       refine ⟨?_, hE'⟩
       rcases hcan with ⟨hl, hc⟩ | ⟨hl, _, hc⟩
       · rw [hc]; exact hI.1.push ⟨ns, x⟩ hns hl
@@ -351,7 +344,7 @@ theorem addItem_isOk (st : State) (ns : Name) (x : Item) : isOk (addItem st ns x
         · exact .inr ⟨hl, hd⟩
       | error e =>
         simp only [isOk, false_iff, Bool.false_eq_true]
-        obtain ⟨s, hl, hn, _⟩ := checkCanon_error hc
+        obtain ⟨-, s, hl, hn⟩ := checkCanon_error hc
         simp only at hl
         rw [hl]
         rintro (h | ⟨h, hd⟩)
@@ -447,13 +440,13 @@ theorem addItem_ok_iff {st D N} {a : Decl} (hI : Inv st D N) (hNC : NC D N) (hU 
       | ok ent => exact ⟨ent, rfl⟩
       | error e =>
         exfalso
-        rcases envCheck_error hE with ⟨v, vs, hk, ho, hv⟩ | ⟨f, ho⟩ | ⟨hr, vs, ho⟩ | ⟨hk, hc, _, _⟩
+        rcases envCheck_error hE with ⟨v, vs, hk, ho, hv⟩ | ho | ⟨hr, vs, ho⟩ | ⟨hk, hc, _, _⟩
         · obtain ⟨b, hbD, hex, hbk⟩ := ((hI.2.e2 _ _ ho).2 v).mp hv
           have := h1 b hbD
           rw [clash_routes hbk hk] at this
           simp only [exactOf, Prod.mk.injEq] at hex
           simp [hex.1, hex.2] at this
-        · obtain ⟨b, hbD, hex, hbr⟩ := hI.2.e3 _ _ ho
+        · obtain ⟨b, hbD, hex, hbr⟩ := hI.2.e3 _ ho
           have := h1 b hbD
           rw [clash_of_nonroute (.inl hbr)] at this
           simp only [exactOf, Prod.mk.injEq] at hex
@@ -696,91 +689,58 @@ theorem builtin_type_not_redefinable (fs : List File) (f : File) (hf : f ∈ fs)
 
 /-! ## Crash layer (C03) -/
 
-/-- no definition named like a built-in type, no `annotation` definition, and no two definitions of one namespace
-with the same (exact) name unless both are routes -/
-def CFD (D : List Decl) : Prop :=
-  (∀ a ∈ D, builtinTypes.contains a.item.name = false) ∧
-  (∀ a ∈ D, a.item.kind ≠ .annotation) ∧
-  D.Pairwise (fun a b => a.ns = b.ns → a.item.name = b.item.name →
-    a.item.kind.isRoute = true ∧ b.item.kind.isRoute = true)
+/-- in a state described by `(D, N)` no environment holds an `ApiRoutesByVersion` without a route -/
+theorem InvE.routes_nonempty {en D p} (h : InvE en D) : en.lookup p ≠ some (.routes []) := by
+  intro hl
+  have hne : ¬ ∀ b ∈ D, exactOf b ≠ p := fun hall => by rw [(h.e1 p).mpr hall] at hl; cases hl
+  obtain ⟨b, hbD, hex⟩ : ∃ b ∈ D, exactOf b = p := by
+    apply Classical.byContradiction
+    intro hno
+    exact hne fun b hb he => hno ⟨b, hb, he⟩
+  obtain ⟨v, hv⟩ := isRoute_iff.mp ((h.e2 p [] hl).1 b hbD hex)
+  have := ((h.e2 p [] hl).2 v).mpr ⟨b, hbD, hex, hv⟩
+  cases this
 
-def CrashFree (fs : List File) : Prop := CFD (decls fs)
+theorem envCheck_crash {k old name e} (h : envCheck k old name = .error (.crash e)) : old = some (.routes []) := by
+  unfold envCheck at h
+  split at h
+  · split at h <;> cases h
+  · cases h
+  · rename_i _ ent _
+    rcases ent with _ | (_ | ⟨v, vs⟩) <;> simp [symbolAlreadyDefined] at h ⊢
+  · split at h <;> cases h
 
-instance (fs : List File) : Decidable (CrashFree fs) := by unfold CrashFree CFD; infer_instance
-
-theorem CFD.mono {D D' : List Decl} (h : CFD D') (hs : D.Sublist D') : CFD D :=
-  ⟨fun a ha => h.1 a (hs.subset ha), fun a ha => h.2.1 a (hs.subset ha), h.2.2.sublist hs⟩
-
-theorem envCheck_crash {k old name e} (h : envCheck k old name = .error (.crash e)) :
-    (∃ f, old = some (.user f)) ∨ (k.isRoute = false ∧ ∃ vs, old = some (.routes vs)) := by
-  rcases envCheck_error h with ⟨v, vs, hk, ho, hv⟩ | h1 | h1 | ⟨_, _, _, he⟩
-  · exfalso
-    subst hk; subst ho
-    simp [envCheck, hv] at h
-  · exact .inl h1
-  · exact .inr h1
-  · cases he
-
-theorem cls_eq_annotation {k : ItemKind} (h : k.cls = .annotation) : k = .annotation := by
-  cases k <;> simp [ItemKind.cls] at h ⊢
-
-theorem addItem_no_crash {st D N} {a : Decl} (hI : Inv st D N) (hC : CFD (D ++ [a])) (e : PyExc) :
-    addItem st a.ns a.item ≠ .error (.crash e) := by
+theorem addItem_no_crash {st D N} (hI : Inv st D N) (ns : Name) (x : Item) (e : PyExc) :
+    addItem st ns x ≠ .error (.crash e) := by
   intro h
-  obtain ⟨hb, hann, hpw⟩ := hC
-  rw [List.pairwise_append] at hpw
-  have hpw : ∀ b ∈ D, exactOf b = (a.ns, a.item.name) → b.item.kind.isRoute = true ∧ a.item.kind.isRoute = true := by
-    intro b hbD he
-    simp only [exactOf, Prod.mk.injEq] at he
-    exact hpw.2.2 b hbD a (by simp) he.1 he.2
   rw [addItem_eq] at h
   split at h
-  · rename_i hbt; rw [hb a (by simp)] at hbt; cases hbt
+  · cases h
   · split at h
     · rename_i e' hE
       cases h
-      rcases envCheck_crash hE with ⟨f, ho⟩ | ⟨hr, vs, ho⟩
-      · obtain ⟨b, hbD, hex, hbr⟩ := hI.2.e3 _ _ ho
-        rw [(hpw b hbD hex).1] at hbr; cases hbr
-      · obtain ⟨b, hbD, hex⟩ : ∃ b ∈ D, exactOf b = (a.ns, a.item.name) := by
-          apply Classical.byContradiction
-          intro hno
-          have hall : ∀ b ∈ D, exactOf b ≠ (a.ns, a.item.name) := fun b hb he => hno ⟨b, hb, he⟩
-          rw [(hI.2.e1 _).mpr hall] at ho; cases ho
-        rw [(hpw b hbD hex).2] at hr; cases hr
-    · obtain ⟨s, hl, _, hcr⟩ := checkCanon_error h
-      simp only at hl
-      rcases hcr e rfl with hc | hc
-      · exact hann a (by simp) (cls_eq_annotation hc)
-      · subst hc
-        rcases hI.1.c2 _ _ hl with ⟨hc, _⟩ | ⟨b, hbD, _, hc⟩
-        · cases hc
-        · exact hann b (List.mem_append_left _ hbD) (cls_eq_annotation hc)
+      exact hI.2.routes_nonempty (envCheck_crash hE)
+    · have := (checkCanon_error h).1
+      cases this
 
-theorem addItems_no_crash {st D N ns} (xs : List Item) (hI : Inv st D N) (hns : ns ∈ N)
-    (hC : CFD (D ++ xs.map (fun x => (⟨ns, x⟩ : Decl)))) (e : PyExc) : addItems st ns xs ≠ .error (.crash e) := by
+theorem addItems_no_crash {st D N ns} (xs : List Item) (hI : Inv st D N) (hns : ns ∈ N) (e : PyExc) :
+    addItems st ns xs ≠ .error (.crash e) := by
   induction xs generalizing st D with
   | nil => simp [addItems]
   | cons x xs ih =>
-    have hassoc : D ++ (x :: xs).map (fun x => (⟨ns, x⟩ : Decl))
-        = (D ++ [⟨ns, x⟩]) ++ xs.map (fun x => (⟨ns, x⟩ : Decl)) := by simp
-    rw [hassoc] at hC
     unfold addItems
     cases h1 : addItem st ns x with
     | error e' =>
       simp only
       intro h; cases h
-      exact addItem_no_crash (a := ⟨ns, x⟩) hI (hC.mono (List.sublist_append_left _ _)) e h1
-    | ok st1 => exact ih (addItem_inv hI hns h1) hC
+      exact addItem_no_crash hI ns x e h1
+    | ok st1 => exact ih (addItem_inv hI hns h1)
 
-theorem registerFrom_no_crash {st D N} (fs : List File) (hI : Inv st D N) (hC : CFD (D ++ decls fs)) (e : PyExc) :
+theorem registerFrom_no_crash {st D N} (fs : List File) (hI : Inv st D N) (e : PyExc) :
     registerFrom st fs ≠ .error (.crash e) := by
   induction fs generalizing st D N with
   | nil => simp [registerFrom]
   | cons f fs ih =>
-    have hD : D ++ decls (f :: fs) = (D ++ f.items.map (fun x => (⟨f.ns, x⟩ : Decl))) ++ decls fs := by
-      rw [decls_cons, List.append_assoc]
-    rw [hD] at hC
     have hI1 : Inv { st with canon := (key f.ns f.ns, .ns) :: st.canon } D (N ++ [f.ns]) := ⟨hI.1.pushNs f.ns, hI.2⟩
     have hmem : f.ns ∈ N ++ [f.ns] := by simp
     unfold registerFrom addFile
@@ -788,37 +748,44 @@ theorem registerFrom_no_crash {st D N} (fs : List File) (hI : Inv st D N) (hC : 
     | error e' =>
       simp only
       intro h; cases h
-      exact addItems_no_crash f.items hI1 hmem (hC.mono (List.sublist_append_left _ _)) e h1
-    | ok st1 => exact ih (addItems_inv f.items hI1 hmem h1) hC
+      exact addItems_no_crash f.items hI1 hmem e h1
+    | ok st1 => exact ih (addItems_inv f.items hI1 hmem h1)
 
-/-- **C03 (partial).** The registration pass ends with a specification error or normally, never with a Python
-exception of another class, on inputs that (i) do not redefine a built-in type name, (ii) contain no `annotation`
-definition, (iii) do not define one (namespace, name) twice unless both definitions are routes.
-Partial: each of the three conditions is needed (`crash_*` below). -/
-theorem register_no_crash_partial (fs : List File) (h : CrashFree fs) : ∀ e, register fs ≠ .error (.crash e) :=
-  fun e => registerFrom_no_crash (st := {}) (D := []) (N := []) fs Inv.init
-    (by rw [List.nil_append]; exact h) e
+/-- **C03 (full strength).** For every list of files the registration pass ends normally or with a specification
+error, never with a Python exception of another class: the one partial operation left in the pass
+(`min(existing.at_version)` in `_raise_symbol_already_defined`) is never applied to an empty dictionary, because an
+`ApiRoutesByVersion` enters an environment together with its first route. -/
+theorem register_no_crash (fs : List File) : ∀ e, register fs ≠ .error (.crash e) :=
+  fun e => registerFrom_no_crash (st := {}) (D := []) (N := []) fs Inv.init e
 
-/-- `_get_user_friendly_item_type_as_string` has no branch for an annotation: the conflict message itself fails -/
-theorem crash_annotation_clash :
+/-- the statement is about a model that can fail: from a state that holds an empty `ApiRoutesByVersion` (which the
+pass never builds) a same-named definition ends in `ValueError` -/
+example : addItem { env := [(("a".toList, "r".toList), .routes [])] } "a".toList ⟨.type, "r".toList⟩
+    = .error (.crash .valueError) := rfl
+
+/-! ### Regression: the repaired crash sites are spec errors now -/
+
+/-- a canonical clash that involves an annotation (was `AssertionError`) -/
+theorem annotation_clash_refused :
     register [⟨"a".toList, [⟨.annotation, "Foo".toList⟩, ⟨.type, "foo".toList⟩]⟩]
-      = .error (.crash .assertionError) := rfl
+      = .error (.specerr .nameConflict) := rfl
 
-/-- the "already defined" message reads `_ast_node` of a built-in class -/
-theorem crash_builtin_redefined :
-    register [⟨"a".toList, [⟨.type, "String".toList⟩]⟩] = .error (.crash .attributeError) := rfl
+/-- `struct String`, `alias List`, `route Void`, `annotation_type Int32` (were `AttributeError`s) -/
+theorem builtin_redefined_refused :
+    register [⟨"a".toList, [⟨.type, "String".toList⟩]⟩] = .error (.specerr .symbolDefined) ∧
+    register [⟨"a".toList, [⟨.alias, "List".toList⟩]⟩] = .error (.specerr .symbolDefined) ∧
+    register [⟨"a".toList, [⟨.route 1, "Void".toList⟩]⟩] = .error (.specerr .symbolDefined) ∧
+    register [⟨"a".toList, [⟨.annotationType, "Int32".toList⟩]⟩] = .error (.specerr .symbolDefined) :=
+  ⟨rfl, rfl, rfl, rfl⟩
 
-/-- ... of an `ApiRoutesByVersion` -/
-theorem crash_route_then_type :
-    register [⟨"a".toList, [⟨.route 1, "r".toList⟩, ⟨.type, "r".toList⟩]⟩] = .error (.crash .attributeError) := rfl
+/-- `route r` then `struct r` (was `AttributeError`) -/
+theorem route_then_type_refused :
+    register [⟨"a".toList, [⟨.route 1, "r".toList⟩, ⟨.type, "r".toList⟩]⟩] = .error (.specerr .symbolDefined) := rfl
 
-/-- ... of an `AnnotationType` -/
-theorem crash_annotation_type_then_same_name :
+/-- `annotation_type T` then `struct T` (was `AttributeError`) -/
+theorem annotation_type_then_same_name_refused :
     register [⟨"a".toList, [⟨.annotationType, "T".toList⟩, ⟨.type, "T".toList⟩]⟩]
-      = .error (.crash .attributeError) := rfl
-
-theorem register_no_crash_fails : ¬ ∀ fs e, register fs ≠ .error (.crash e) :=
-  fun h => h _ _ crash_builtin_redefined
+      = .error (.specerr .symbolDefined) := rfl
 
 /-! ## Non-vacuity -/
 
@@ -833,7 +800,6 @@ def exampleFiles : List File :=
 example : ConcatUnambiguous exampleFiles := by decide
 example : NsLexical exampleFiles := by decide
 example : NoClash exampleFiles := by decide
-example : CrashFree exampleFiles := by decide
 example : isOk (register exampleFiles) = true := by decide
 /-- a refused input within the hypotheses of the partial theorems -/
 example : ConcatUnambiguous [⟨"a".toList, [⟨.type, "Foo".toList⟩, ⟨.route 1, "foo".toList⟩]⟩] ∧
